@@ -191,7 +191,11 @@ fn gen_type_case(ch: &mut Chooser, max_depth: usize) -> TypeCase {
 
 // ---------- structural constructs ----------
 
-const STRUCTURAL: [&str; 17] = [
+const STRUCTURAL: [&str; 21] = [
+    "flatten-struct-field-after-rename",
+    "flatten-struct-field-before-rename",
+    "flatten-variant-field-after-rename",
+    "flatten-variant-field-before-rename",
     "tuple-struct-2",
     "tuple-variant-2",
     "flatten-struct-field",
@@ -214,7 +218,7 @@ const STRUCTURAL: [&str; 17] = [
 /// (source, skippable member?, expected: Reject | Value(v))
 pub fn structural_program(kind: &str, skip: Skip) -> Option<(File, Option<File>)> {
     let keep = Field::new("keep", Ty::Prim("u32"));
-    let can_skip = matches!(kind, "tuple-variant-2" | "flatten-struct-field" | "flatten-variant-field") || kind.starts_with("enum-no-") || kind.starts_with("unit-enum-with-");
+    let can_skip = matches!(kind, "tuple-variant-2") || kind.starts_with("flatten-") || kind.starts_with("enum-no-") || kind.starts_with("unit-enum-with-");
     if skip != Skip::No && !can_skip {
         return None;
     }
@@ -227,13 +231,21 @@ pub fn structural_program(kind: &str, skip: Skip) -> Option<(File, Option<File>)
             let without = File::single(vec![Item::enumm("Outer", vec![Variant::new("Keep", VKind::Newtype(Ty::Prim("u32")))])]);
             return Some((with, Some(without)));
         }
-        "flatten-struct-field" | "flatten-variant-field" => {
+        k if k.starts_with("flatten-") => {
             let mut bad = Field::new("bad", Ty::user("Other"));
             bad.flatten = true;
             bad.skip = skip;
+            // `flatten` in one attribute with a valued argument, after or before it
+            if kind.ends_with("-after-rename") {
+                bad.rename = Some("extra".into());
+                bad.style = AttrStyle::Merged;
+            } else if kind.ends_with("-before-rename") {
+                bad.rename = Some("extra".into());
+                bad.style = AttrStyle::MergedReversed;
+            }
             let other = Item::strukt("Other", vec![Field::new("o", Ty::Prim("u32"))]);
             let mk = |fields: Vec<Field>| {
-                if kind == "flatten-struct-field" {
+                if kind.starts_with("flatten-struct-field") {
                     Item::strukt("Outer", fields)
                 } else {
                     Item::enumm("Outer", vec![Variant::new("Sv", VKind::Struct(fields)), Variant::new("U", VKind::Unit)])
